@@ -20,3 +20,50 @@ Print Assumptions C19_scalar_idem.
 Theorem C19_consts : consts_ok current_consts RedactedString = true.
 Proof. vm_compute. reflexivity. Qed.
 Print Assumptions C19_consts.
+
+(* ---------- tree level ---------- *)
+From Proofs Require Import WalkerRel WalkerIdem LineIdem.
+
+(* every walker, in every mode it can be called in, on every tree without duplicate sibling keys:
+   a second pass changes nothing. ANY tables; placeholder-mode actions; no regexp, no namespace
+   pseudonymisation, field-name mode off; replacement text not e-mail shaped. *)
+Theorem C19_walkers : forall tb cs c A t m,
+  (forall s ph, a_str A s ph = ph) -> (forall n, a_num A n = c_num cs) -> (forall b, a_bool A b = c_bool cs) ->
+  is_email (c_email cs) = true -> is_email (repl c) = false -> re c = None -> nss c = false ->
+  mode_rfn m = false -> nodup_keys t ->
+  walk tb cs c is_email A m (walk tb cs c is_email A m t) = walk tb cs c is_email A m t.
+Proof. intros tb cs c A t m H1 H2 H3 H4 H5 H6 H7. exact (walk_idem tb cs c is_email A H1 H2 H3 H4 H5 H6 H7 t m). Qed.
+Print Assumptions C19_walkers.
+
+(* whole log entries (gate, attr members, command dispatch, IP placeholder), any tables *)
+Theorem C19_entry : forall tb cs c e,
+  is_email (c_email cs) = true -> is_email (repl c) = false -> re c = None -> nss c = false -> eager c = [] ->
+  nodup_keys (JObj e) ->
+  let A := real_actions cs c None in
+  redact_entry tb cs c A (redact_entry tb cs c A e) = redact_entry tb cs c A e.
+Proof.
+  intros tb cs c e H4 H5 H6 H7 H8 Hn A.
+  apply (redact_entry_idem tb cs c A); auto.
+Qed.
+Print Assumptions C19_entry.
+
+(* the program as it is now: regenerated tables and constants, every flag combination of
+   --redactNumbers / --redactBooleans / --redactIPs / --replacement (not e-mail shaped) *)
+Theorem C19_current : forall rp n b i t,
+  is_email rp = false -> nodup_keys t ->
+  let c := {| repl := rp; nums := n; bools := b; ips := i; nss := false; eager := []; re := None |} in
+  let R := redact_tree current current_consts c (real_actions current_consts c None) in
+  R (R t) = R t.
+Proof.
+  intros rp n b i t Hr Hn c R. apply (redact_tree_idem current current_consts c (real_actions current_consts c None)); auto.
+Qed.
+Print Assumptions C19_current.
+
+(* non-vacuity: a tree that the first pass really changes *)
+Open Scope string_scope.
+Example C19_nonvacuous :
+  let c := {| repl := "REDACTED"; nums := true; bools := false; ips := false; nss := false; eager := []; re := None |} in
+  let R := redact_tree current current_consts c (real_actions current_consts c None) in
+  let t := JObj [("c", JStr "COMMAND"); ("attr", JObj [("command", JObj [("find", JStr "x"); ("filter", JObj [("a", JStr "s@t.co"); ("n", JNum "5")])])])] in
+  R t <> t /\ R (R t) = R t.
+Proof. vm_compute. split; [discriminate | reflexivity]. Qed.
